@@ -52,6 +52,9 @@ def scriptpubkey(data: bytes) -> bytes:
             )
         elif len(witness_program) == 32:
             return p2wsh_script_pubkey(witness_program, witness_version=witness_version)
+        elif witness_version >= 1:
+            # any 2 to 40 byte witness program is valid for v1+ (BIP141 / BIP350)
+            return script([f"OP_{witness_version}", witness_program.hex()])
         else:
             raise ValueError("bad witness program length")
     else:
